@@ -726,7 +726,7 @@ impl Ctx {
                 let cpu = &self.m.cpu;
                 if self.odd_pc && (cpu.vh_pc() | 1) == (ro.pc | 1) {
                     // bit 0 of PC is not compared
-                } else if cpu.vh_pc() != ro.pc {
+                } else if cpu.vh_pc() != ro.pc && Some(cpu.vh_pc()) != ro.pc_alt {
                     return Some(Diff { what: format!("pc: expected {:06x}, got {:06x}", ro.pc, cpu.vh_pc()) });
                 }
                 for k in 0..8 {
